@@ -250,9 +250,15 @@ def eval_peek(max_len: int = 4) -> tuple[str, list]:
     for n in range(0, max_len + 1):
         for spec in itertools.product(PEEK_ALPHABET, repeat=n):
             toks = make_stream_multiline(spec)
-            for path in ("", "f.py"):
+            for path, pushed in (("", False), ("f.py", False), ("", True)):
                 try:
                     me = new_tokenizer(list(toks), path=path)
+                    extra = []
+                    if pushed:
+                        # a token handed back to the buffer (the `)` a call-macro capture pushes back, a token re-queued by a
+                        # capture routine) is a token like any other: the parser sees it first, and its line is remembered
+                        extra = [Tok(("Token", "NAME"), "z", (9, 0), (9, 1), "z\n")]
+                        me._stack = list(extra)
                     seen, fetched_before = [], None
                     ok = True
                     why = ""
@@ -277,7 +283,7 @@ def eval_peek(max_len: int = 4) -> tuple[str, list]:
                             ok, why = False, "more tokens than the stream holds"
                             break
                     want, prev = [], None
-                    for t in toks:
+                    for t in extra + list(toks):
                         if not _is_blank_ref(t, prev):
                             want.append(tuple(t))
                             prev = t
@@ -286,7 +292,7 @@ def eval_peek(max_len: int = 4) -> tuple[str, list]:
                     if ok:
                         lines_want = {}
                         if not path:
-                            for t in toks:
+                            for t in extra + list(toks):
                                 parts = t.line.split("\n")
                                 ls = [x + "\n" for x in parts[:-1]] + ([parts[-1]] if parts[-1] else [])
                                 if len(ls) != t.end[0] - t.start[0] + 1:
